@@ -124,15 +124,25 @@ check('C16', 'proof',
       'Trusted: Coq kernel, extraction + driver, harness; CPython struct.pack range checks and float32 rounding (only float32-representable values are generated).',
       'Coq proof (writer model = spec encoder, composed with the decoder theorem) + differential write/read run', 'DESIGN.md §6 C16')
 
-check('C09', 'other',
-      'Exhaustive over the bundled versions rather than proved: for EVERY bundled wows version (76) two to four synthetic battles, and for the wot/wowp '
-      'versions minimal ones, are encoded against that version\'s own definitions - index maps and types taken from the extracted Coq model, the container '
-      'from the extracted writer - and parsed by ReplayParser(strict=True); player id, arena id, map, ordered death list, per-victim/per-attacker damage '
-      'totals (amount fields named by that version\'s definition), achievement and ribbon counts, battle result and the id-keyed roster merge (incl. a '
-      'mid-battle join and a later update) are compared field by field with what the generator put into the stream. The decoding underneath is covered '
-      'by the C03/C05/C07 theorems. No Gallina model of the 82 controllers is proved: that is why the level is "other".',
-      'Trusted: the generator (its expectation of each field), pickle and the controllers\' use of it, everything C01/C03/C04/C05/C07 trust.',
-      'exhaustive-over-versions differential run of generated battles against generator-side expectations (no theorem about the controllers)', 'DESIGN.md §6 C09')
+check('C09', 'proof',
+      'The event-driven part of every bundled wows controller (76 files, 17 distinct programs) is TRANSLATED on every run from the working tree '
+      '(battle_controller.py handlers, players_info.py, constants.py) into a small handler language whose interpreter is Gallina (Summary.v); Coq theorems '
+      'about the interpreter, for ANY history strict play accepts and any interleaving with other calls: the damage field is the count over exactly the '
+      '(victim, attacker, amount) entries of the damage calls - each entry counted each time it occurs, under its own path and no other, totals are the '
+      'stream-order sums (integers: the arithmetic sum); the death list is the list of death calls, once each, in order; the roster is the key-mapped, '
+      'id-keyed merge in which the last record that names a player and carries a field wins; a call changes only the fields its handler writes and the '
+      'roster only if it is a roster call, an unhandled call changes nothing; the map setter strips a character SET, not the prefix (refuted + the exact '
+      'condition under which they agree; finding C09-a). Generated instance theorems discharge the section hypotheses (handler shape, no other writer of '
+      'the field) for every distinct program. Tie: translator is fail-closed (unknown statement => obligation fails); the translated program is run by the '
+      'extracted interpreter on the calls every synthetic battle of EVERY bundled version and real recordings deliver, and compared field by field with '
+      'get_info(); independently, each synthetic summary is compared with what the generator put into the stream (index maps/types from the extracted '
+      'model, container from the extracted writer).',
+      'Trusted: Coq kernel, extraction + driver, tools/gen_controllers.py (translator) and summarycheck.py; CPython pickle as an oracle (roster blobs are unpickled by the harness '
+      'with the encoding the handler names); exact dyadic float addition in the model (histories where CPython rounds are excluded and counted). Modelled, not proved: fields '
+      'get_info() derives from the final world (ribbons of newer versions, crew, tasks, control points, new-style battle result inputs: covered by the C05/C06 theorems on that '
+      'state), receiveDamageStat (_damage_map; pinned by source hash), achievements/planes/ribbon counting handlers (translated and run, no section theorem instantiated), '
+      'the wot/wowp controllers (player id, map, tracer count compared by run only).',
+      'Coq proof over an interpreter of controller programs regenerated from the source on every run (translator) + instance theorems + differential run on all bundled versions', 'DESIGN.md §10.7')
 
 check('C13', 'proof',
       'Coq theorem over a model in which the process-global subscription tables are threaded through a SEQUENCE of parses: under the finite condition '
